@@ -32,7 +32,7 @@ func NewLens[S, A any](t hseq.Type[S]) Lens[S, A] {
 	fv := reflect.TypeOf(new(A)).Elem()
 	cat := reflect.TypeOf(new(S)).Elem()
 
-	if ft == fv && focusable(cat, t.RootOffs+t.Offset, fv) {
+	if ft == fv && focusable(cat, t.RootOffs+t.Offset, t.Name, fv) {
 		return &lens[S, A]{t}
 	}
 
@@ -50,20 +50,22 @@ func names(attr []string, n int) []string {
 	return attr[0:n]
 }
 
-// focusable checks that a field of type ft is located at the offset of the
-// struct cat, following plain and embedded struct values only (a field behind
-// a pointer is not part of the struct's memory).
-func focusable(cat reflect.Type, offset uintptr, ft reflect.Type) bool {
+// focusable checks that the field called name, of type ft, is located at the
+// offset of the struct cat, following plain and embedded struct values only
+// (a field behind a pointer is not part of the struct's memory). The name is
+// compared as well: the offset computed for a field behind an embedded pointer
+// may coincide with another field of the same type.
+func focusable(cat reflect.Type, offset uintptr, name string, ft reflect.Type) bool {
 	if cat.Kind() != reflect.Struct {
 		return false
 	}
 
 	for i := 0; i < cat.NumField(); i++ {
 		f := cat.Field(i)
-		if f.Offset == offset && f.Type == ft {
+		if f.Offset == offset && f.Name == name && f.Type == ft {
 			return true
 		}
-		if f.Type.Kind() == reflect.Struct && f.Offset <= offset && focusable(f.Type, offset-f.Offset, ft) {
+		if f.Type.Kind() == reflect.Struct && f.Offset <= offset && focusable(f.Type, offset-f.Offset, name, ft) {
 			return true
 		}
 	}
